@@ -24,7 +24,7 @@ import struct
 
 import txaio
 
-from .wamp_harness import RouterPeer
+from .wamp_harness import Outcome, RouterPeer
 
 MISSING = "<missing>"
 
@@ -209,6 +209,14 @@ class CaseRun:
         self.aborted = None
         self.len_mismatch = 0
         self.user_errors = []
+        self.reg_outcomes = {}                        # proc index -> Outcome of session.register()
+        self.unreg_state = {}                         # proc index -> None (registered) | "requested" | "gone"
+        self.unreg_req = {}                           # proc index -> request id of the UNREGISTER on the wire
+        self.gone_step = {}                           # proc index -> step at which UNREGISTERED was delivered
+        self.res_step = [None] * n                    # step at which the endpoint's pending result was produced
+        self.cancel_step = [None] * n
+        self.cur_step = -1
+        self.unreg_outcomes = []
         self._big_cache = {}
         self._big_target = {}
 
@@ -306,9 +314,9 @@ class CaseRun:
                 m = wamp.register(proc_uri(pi), options=opts)(fn)
                 obj = type("Obj%d" % pi, (object,), {"m": m})()
                 self.objs[pi] = obj
-                s.register(obj)
+                self.reg_outcomes[pi] = Outcome(s.register(obj))
             else:
-                s.register(fn, proc_uri(pi), options=opts)
+                self.reg_outcomes[pi] = Outcome(s.register(fn, proc_uri(pi), options=opts))
         reqs = {}
         for m in rp.recv():
             if m and m[0] == 64:
@@ -538,6 +546,8 @@ class CaseRun:
         self.progress_fn[i] = prog if callable(prog) else None
         for pk in self.invs[i]["plan"].get("progress", ()):
             self._emit_progress(i, pk)
+        if self.invs[i]["plan"].get("unreg_in_endpoint"):
+            self._app_unregister(pi, "in-endpoint")
         return i
 
     # -- router side ------------------------------------------------------------------------------
@@ -596,6 +606,10 @@ class CaseRun:
                 rid = m[2]
                 a, k = norm_payload(m, 5)
                 rec = ("E", a, k, m[4], step, ln)
+            elif m[0] == 66 and len(m) == 3 and isinstance(m[2], int) and self.unreg_state.get(m[2] - 9000) == "requested" \
+                    and (m[2] - 9000) not in self.unreg_req:
+                self.unreg_req[m[2] - 9000] = m[1]
+                continue
             else:
                 self.other_msgs.append((m[0], short(m)))
                 continue
@@ -610,9 +624,29 @@ class CaseRun:
         chunks = []
         in_this_feed = set()
         for it in items:
+            if it[0] == "unregd":
+                pi, how = it[1], it[2]
+                if self.unreg_state.get(pi) != "requested" or pi not in self.unreg_req:
+                    continue
+                req = self.unreg_req.pop(pi)
+                if how == "ok":
+                    chunks.append(rp.encode([67, req]))
+                    self.unreg_state[pi] = "gone"
+                    self.gone_step[pi] = si
+                    self.R.count("unregistered_delivered")
+                else:
+                    chunks.append(rp.encode([8, 66, req, {}, "wamp.error.no_such_registration"]))
+                    self.unreg_state[pi] = None
+                    self.R.count("unregister_refused")
+                continue
             if it[0] == "inv":
                 i = it[1]
                 inv = self.invs[i]
+                if self.unreg_state.get(inv["proc"]) == "gone":
+                    self.skipped[i] = True     # a conforming router sends no INVOCATION after its UNREGISTERED
+                    continue
+                if self.unreg_state.get(inv["proc"]) == "requested":
+                    self.R.count("inv_between_unregister_and_reply")
                 prev = self.cur_gen.get(inv["rid"])
                 if prev is not None and prev != i:
                     # request-id reuse: only legitimate once the earlier invocation is complete on the wire
@@ -646,6 +680,7 @@ class CaseRun:
                       and self.pending[i] is not None):
                     point = "while-pending"
                     self.cancelled[i] = True
+                    self.cancel_step[i] = si
                 else:
                     point = "after-completion"
                 self.interrupts[i].append(point)
@@ -669,11 +704,30 @@ class CaseRun:
             rp.ep.feed(p)
         rp.world.settle()
 
+    def _app_unregister(self, pi, where):
+        """The application calls Registration.unregister() (public API)."""
+        if self.unreg_state.get(pi) is not None:
+            return
+        oc = self.reg_outcomes.get(pi)
+        if not oc or not oc.results or oc.results[0][0] != "ok":
+            return
+        reg = oc.results[0][1]
+        if isinstance(reg, (list, tuple)):      # register(obj) resolves to a list (Twisted: of (success, value) pairs)
+            reg = reg[0]
+            if isinstance(reg, tuple):
+                reg = reg[1]
+        fut = reg.unregister()
+        self.unreg_outcomes.append(Outcome(fut))      # consumes a failure (ERROR reply) like an application would
+        self.unreg_state[pi] = "requested"
+        self.R.count("unregister_requests")
+        self.R.seen("unregister_points", where)
+
     def _do_res(self, i):
         p = self.pending[i]
         if p is None or self.resolved[i]:
             return
         self.resolved[i] = True
+        self.res_step[i] = self.cur_step
         kind, f = p
         if self.fw == "tx":
             if f.called:
@@ -719,7 +773,12 @@ class CaseRun:
                 if self._aborted():
                     break
                 op = st[0]
-                if op == "feed":
+                self.cur_step = si
+                if op == "unreg":
+                    self._app_unregister(st[1], "application")
+                elif op == "unregd":
+                    self._do_feed(si, [st], None)
+                elif op == "feed":
                     self._do_feed(si, st[1], st[2] if len(st) > 2 else None)
                 elif op == "res":
                     self._do_res(st[1])
@@ -895,6 +954,14 @@ class CaseRun:
                 want = "Y" if cls in ("result", "result-fits-limit", "result-large-unlimited") else "E"
             if any(p == "before-invocation" for p in self.interrupts[i]) and cause == cls:
                 R.count("interrupt_before_then_normal")
+            gone = self.gone_step.get(inv["proc"])
+            due = self.cancel_step[i] if self.cancelled[i] else (self.res_step[i] if plan["mode"] == "pending" else None)
+            across = gone is not None and want_n == 1 and due is not None and self.delivered_step[i] <= gone < due
+            if across:
+                R.count("replies_due_after_unregistered")
+                R.seen("unregistered_across", "%s/%s" % (plan["out"][0], "cancel" if self.cancelled[i] else "resolve"))
+                if not chain:
+                    cause = "unregistered-while-pending"
             mode_cause = cause
             # ---- endpoint call count
             R.count("endpoint_calls_checked")
